@@ -29,7 +29,12 @@ for n in sorted(os.listdir(f'{V}/seeded')):
     summ=(meta.get('summary') or '').split(': ',1)
     one=(meta.get('summary') or '')[:170].replace('|','/').replace('\n',' ')
     r=res.get(n)
-    if not r: srows.append(f"| {n} | {one}… | not run | |"); continue
+    if not r:
+        if meta.get('superseded'):
+            srows.append(f"| {n} | {one}… | superseded | {meta['superseded'][:260]} |")
+        else:
+            srows.append(f"| {n} | {one}… | not run | |")
+        continue
     if r[0]=='1':
         ob=re.sub(r'^replayed=\d+ ','',r[2]).split('.json')[0].lstrip('_')
         srows.append(f"| {n} | {one}… | caught ({r[1]} violation(s)) | `{ob}` |")
